@@ -27,6 +27,7 @@ type cfgCase struct {
 	Spoc     string   `json:"netspoc"`
 	Bindings []string `json:"bindings"`
 	Routes   bool     `json:"routes"`
+	Routes6  bool     `json:"routes6,omitempty"`
 	Note     []string `json:"mutations"`
 	dev      *asaDev
 	spoc     *asaDev
@@ -213,6 +214,12 @@ func genTarget(r *RNG) *asaDev {
 			if !dup {
 				b.Routes = append(b.Routes, rt)
 			}
+		}
+	}
+	if r.Chance(30) {
+		for i, n := 0, 1+r.Intn(2); i < n; i++ {
+			rt := fmt.Sprintf("%s 2001:db8:%d::/48 %s", b.Intfs[0][1], i+1, Pick(r, []string{"fe80::1", "fe80::2", "2001:db8:ff::1"}))
+			b.Routes6 = append(b.Routes6, rt)
 		}
 	}
 	return b
@@ -427,6 +434,20 @@ func genDevice(r *RNG, b *asaDev) (*asaDev, []string) {
 				a.Routes = append(a.Routes, a.Intfs[0][1]+" 10.8.0.0 255.255.0.0 10.0.0.1")
 				say("route-extra")
 			}
+			switch {
+			case len(a.Routes6) > 0 && r.Chance(50):
+				f := strings.Fields(a.Routes6[0])
+				f[2] = Pick(r, []string{"fe80::1", "fe80::2", "fe80::9"})
+				a.Routes6[0] = strings.Join(f, " ")
+				say("route6-change-gw")
+			case len(a.Routes6) > 0 && r.Chance(50):
+				a.Routes6 = a.Routes6[1:]
+				say("route6-missing")
+			case r.Chance(50) && !contains(a.Routes6, a.Intfs[0][1]+" 2001:db8:77::/48 fe80::7"):
+				// with ipv6 routes in the target: an extra one; without: routes the tool must leave alone
+				a.Routes6 = append(a.Routes6, a.Intfs[0][1]+" 2001:db8:77::/48 fe80::7")
+				say("route6-extra-or-unmanaged")
+			}
 		}
 	}
 	// remove groups that became unreferenced and untagged by renames? keep: they are unmanaged then.
@@ -533,9 +554,9 @@ func genCase(r *RNG) cfgCase {
 		// blocks the tool does not model, with indented sub-lines, behind the last object-group, access-list or route
 		devText = insertUnknownBlocks(r, devText)
 		note = append(note, "unknown-blocks-with-sub-lines")
-		return cfgCase{Dev: devText, Spoc: spocText, Bindings: bindings, Routes: len(b.Routes) > 0, Note: note, dev: parseDev(devText), spoc: b}
+		return cfgCase{Dev: devText, Spoc: spocText, Bindings: bindings, Routes: len(b.Routes) > 0, Routes6: len(b.Routes6) > 0, Note: note, dev: parseDev(devText), spoc: b}
 	}
-	return cfgCase{Dev: devText, Spoc: spocText, Bindings: bindings, Routes: len(b.Routes) > 0, Note: note, dev: a, spoc: b}
+	return cfgCase{Dev: devText, Spoc: spocText, Bindings: bindings, Routes: len(b.Routes) > 0, Routes6: len(b.Routes6) > 0, Note: note, dev: a, spoc: b}
 }
 
 var unknownBlocks = [][]string{
@@ -603,6 +624,10 @@ func groupRefCount(d *asaDev, g string) int {
 func respell(r *RNG, text string, target bool) string {
 	lines := strings.Split(text, "\n")
 	for i, line := range lines {
+		if !target && (strings.HasPrefix(line, "route ") || strings.HasPrefix(line, "ipv6 route ")) && r.Chance(60) {
+			lines[i] = line + " 1" // a device shows the metric
+			continue
+		}
 		m := aclCmdRE.FindStringSubmatch(line)
 		if m == nil || !r.Chance(60) {
 			continue
@@ -702,7 +727,9 @@ func parseDev(text string) *asaDev {
 			m := agCmdRE.FindStringSubmatch(line)
 			d.Bind[m[3]+" "+m[4]] = m[2]
 		case w[0] == "route":
-			d.Routes = append(d.Routes, strings.TrimPrefix(line, "route "))
+			d.Routes = append(d.Routes, canonRoute(strings.TrimPrefix(line, "route "), 4))
+		case w[0] == "ipv6" && len(w) > 1 && w[1] == "route":
+			d.Routes6 = append(d.Routes6, canonRoute(strings.TrimPrefix(line, "ipv6 route "), 3))
 		default:
 			d.Unknown = append(d.Unknown, line)
 			curUnk = true
@@ -743,9 +770,20 @@ func unmanagedNames(a *asaDev, managedIntf map[string]bool) (acls, groups map[st
 }
 
 // unmanagedView prints the definitions of those objects in d (they must stay as they are).
-func unmanagedView(d *asaDev, managedIntf map[string]bool, acls, groups map[string]bool) string {
+func unmanagedView(d *asaDev, managedIntf map[string]bool, acls, groups map[string]bool, keepRoutes, keepRoutes6 bool) string {
 	var sb strings.Builder
 	sb.WriteString(strings.Join(d.Unknown, "\n") + "\n")
+	// routes of an address family for which the target specifies none stay as they are
+	if keepRoutes {
+		r := append([]string{}, d.Routes...)
+		sort.Strings(r)
+		sb.WriteString("routes " + strings.Join(r, "; ") + "\n")
+	}
+	if keepRoutes6 {
+		r := append([]string{}, d.Routes6...)
+		sort.Strings(r)
+		sb.WriteString("ipv6 routes " + strings.Join(r, "; ") + "\n")
+	}
 	for _, i := range d.Intfs {
 		sb.WriteString("interface " + i[0] + " " + i[1] + "\n")
 	}
@@ -854,9 +892,9 @@ func run(ctx *Ctx) *Result {
 		}
 		want := c.spoc.clone()
 		want.Intfs = c.dev.Intfs
-		wantView := want.managedView(c.Bindings, c.Routes)
+		wantView := want.managedView(c.Bindings, c.Routes, c.Routes6)
 		uAcls, uGroups := unmanagedNames(c.dev, managed)
-		frame0 := unmanagedView(c.dev, managed, uAcls, uGroups)
+		frame0 := unmanagedView(c.dev, managed, uAcls, uGroups, !c.Routes, !c.Routes6)
 		firstOnIface := ""
 		{
 			// F-C01 classification: the first access-group line of the device is bound to an interface unknown to Netspoc
@@ -912,7 +950,7 @@ func run(ctx *Ctx) *Result {
 			res.Sample(map[string]any{"device": c.Dev, "netspoc": c.Spoc, "script": out, "mutations": c.Note})
 		}
 		if prop == "C01" {
-			if got := final.managedView(c.Bindings, c.Routes); got != wantView {
+			if got := final.managedView(c.Bindings, c.Routes, c.Routes6); got != wantView {
 				res.Fail(sig("not_converged"), "after executing the script the managed part differs from the target:\n"+got+"-- want\n"+wantView, c)
 				return
 			}
@@ -925,7 +963,7 @@ func run(ctx *Ctx) *Result {
 			} else if strings.TrimSpace(out2) != "" {
 				res.Fail(sig("second_compare_not_empty"), "second compare reports changes:\n"+out2, c)
 			}
-			if len(cmds) == 0 && c.dev.managedView(c.Bindings, c.Routes) != wantView {
+			if len(cmds) == 0 && c.dev.managedView(c.Bindings, c.Routes, c.Routes6) != wantView {
 				res.Fail(sig("unchanged_reported_for_different_device"), "empty script although the device is not equivalent", c)
 			}
 		}
@@ -1062,7 +1100,7 @@ func run(ctx *Ctx) *Result {
 			}
 		}
 		if prop == "C07" {
-			if got := unmanagedView(final, managed, uAcls, uGroups); got != frame0 {
+			if got := unmanagedView(final, managed, uAcls, uGroups, !c.Routes, !c.Routes6); got != frame0 {
 				res.Fail(sig("unmanaged_content_changed"), "unmanaged content differs after the script:\n"+got+"-- before\n"+frame0, c)
 			}
 		}
@@ -1090,7 +1128,7 @@ func run(ctx *Ctx) *Result {
 				if bad {
 					continue
 				}
-				if got := ex2.d.managedView(c.Bindings, c.Routes); got != wantView {
+				if got := ex2.d.managedView(c.Bindings, c.Routes, c.Routes6); got != wantView {
 					res.Fail(sig("resume_not_converged"), fmt.Sprintf("cut after %d commands: second run ends in\n%s-- want\n%s", k+1, got, wantView), c)
 				}
 			}
